@@ -359,8 +359,9 @@ def c05(v, tier, seed):
         v.sample({"trace_prefix": shards[0][:4]})
         pdu.negative_control(v, wd, [e for e in shards[0][:80]], "C05")
     # (d) the example talkers' packet streams against the Talkers.tla stream machine
-    talker_streams(v, wd, "C05", rnd, q)
-    cvf_talker_streams(v, wd, "C05", rnd, q)
+    with v.growth_scope("Talkers.tla / NalSplit.tla (example talkers as stream machines)"):
+        talker_streams(v, wd, "C05", rnd, q)
+        cvf_talker_streams(v, wd, "C05", rnd, q)
     v.cov["rule"] = ("(a) all ordered pairs of operations per view (BFS), (b) TLC-simulated histories of 40 operations over 3 buffers replayed without resets, "
                      "(c) seeded random histories recorded from the library and validated by PduTrace; RecordView/ReadsLastWritten invariants on the model; "
                      "(d) packet streams of the example talkers (AAF, CRF, hello-world, ACF-VSS in every mode) validated by the Talkers stream machine")
@@ -1303,8 +1304,12 @@ def listener_queues(v, wd, pid, seed, q, exes=None):
         evs = []
         for s, o in zip(scns, obs):
             if o["status"] != "ok" or o["done"] != len(s["hist"]):
-                v.violation("listener-queue=%s outcome=%s" % (kind, o["status"].split(":")[0] if o["status"] != "ok" else "stuck"),
+                v.hard_violation("listener-queue=%s outcome=%s" % (kind, o["status"].split(":")[0] if o["status"] != "ok" else "stuck"),
                             "%s listener %s after %d of %d steps of a generated behaviour" % (kind, o["status"], o["done"], len(s["hist"])), {"scenario": s}); continue
+            if any(r_ < 0 for r_ in o["rets"]):       # the main loop of the listener ends on a negative return: it cannot process the next datagram
+                k_ = next(i for i, r_ in enumerate(o["rets"]) if r_ < 0)
+                v.hard_violation("listener-queue=%s outcome=listener-terminates" % kind, "%s listener: step %d of a generated behaviour (%s) returns %d - the listener's main loop ends" % (
+                                 kind, k_, s["hist"][k_]["a"], o["rets"][k_]), {"scenario": {"kind": kind, "hist": s["hist"][:k_ + 1]}})
             evs.append({"e": "reset"})
             for a, ret, seg in zip(s["hist"], o["rets"], o["outs"] + [[]] * len(s["hist"])):
                 if a["a"] == "packet":
@@ -1372,7 +1377,7 @@ def hello_text(v, wd, pid, seed, q, exe=None):
         evs = []
         for g, o in zip(groups, obs):
             if o["status"] != "ok" or o["done"] < len(g):
-                v.violation("hello-text outcome=%s" % (o["status"].split(":")[0] if o["status"] != "ok" else "stuck"), "hello-world listener %s after %d of %d datagrams" % (o["status"], o["done"], len(g)), {}); continue
+                v.hard_violation("hello-text outcome=%s" % (o["status"].split(":")[0] if o["status"] != "ok" else "stuck"), "hello-world listener %s after %d of %d datagrams" % (o["status"], o["done"], len(g)), {}); continue
             evs.append({"e": "reset"})
             for d, seg in zip(g, o["outs"] + [[]] * len(g)):
                 evs.append({"e": "dgram", "bytes": d if d else [0], "out": unhexs("".join(seg))})
@@ -1451,7 +1456,8 @@ def c18(v, tier, seed):
             import listeners
             can_obs = [(cse["m0"], cse["m1"], [cse["bytes"]] + ([g["bytes"]] if kind == "then-good" else []), o)
                        for (kind, cse, g), o in zip(meta, obs) if kind in ("alone", "single", "then-good")]
-            listeners.can_listener_function(v, wd, "C18", can_obs, q)
+            with v.growth_scope("CanListener.tla (what the ACF-CAN listener forwards for any datagram)"):
+                listeners.can_listener_function(v, wd, "C18", can_obs, q)
         alone = {}
         for (kind, cse, g), o in zip(meta, obs):
             if kind == "alone":
@@ -1488,8 +1494,10 @@ def c18(v, tier, seed):
                 ev["listener"], ev["classes"][0], ev["mode"], " followed by the well-formed datagram" if ev["lastgood"] else "", ev["status"], ev["done"], ev["n"],
                 ev.get("report", ""), ev["bytes"][:160]), {"event": ev})
     v.sample({"observation": {k: all_events[0][k] for k in ("listener", "classes", "mode", "n", "status", "done")}})
-    listener_queues(v, wd, "C18", seed, q, exes)
-    hello_text(v, wd, "C18", seed, q, exes.get("hello"))
+    with v.growth_scope("StreamListener.tla (AAF / CVF listeners as queue machines)"):
+        listener_queues(v, wd, "C18", seed, q, exes)
+    with v.growth_scope("TextListener.tla (what the hello-world listener prints)"):
+        hello_text(v, wd, "C18", seed, q, exes.get("hello"))
     v.cov["distinct_nontrivial"] = ncases
     v.cov["rule"] = ("TLC enumerates the datagram grammar of DatagramGen per listener and mode (length fields 0 / off by one unit / maximum / beyond the datagram, zero-length "
                      "and over-long ACF messages, wrong types, each validity field wrong, truncation at every structural boundary +-1, over-long datagrams, unterminated strings) "
